@@ -287,6 +287,124 @@ fn main() {
             }
             println!("ok relate shortcut");
         }
+        "centroid_dominance" => {
+            use geo::Centroid;
+            use geo_types::{Geometry, GeometryCollection, Line, Point, Triangle};
+            let t = Triangle(coord! {x: 0.0, y: 0.0}, coord! {x: 6.0, y: 0.0}, coord! {x: 0.0, y: 3.0});
+            let l = Line::new(coord! {x: 10.0, y: 10.0}, coord! {x: 14.0, y: 12.0});
+            let p = Point::new(-7.0, 9.0);
+            let g = [Geometry::Triangle(t), Geometry::Line(l), Geometry::Point(p)];
+            for order in [[0, 1, 2], [0, 2, 1], [1, 0, 2], [1, 2, 0], [2, 0, 1], [2, 1, 0]] {
+                let gc = GeometryCollection(order.iter().map(|&i| g[i].clone()).collect());
+                if gc.centroid() != Some(t.centroid()) {
+                    fail(format!("collection order {:?}: centroid {:?} is not the triangle's {:?}", order, gc.centroid(), t.centroid()));
+                }
+            }
+            for order in [[1, 2], [2, 1]] {
+                let gc = GeometryCollection(order.iter().map(|&i| g[i].clone()).collect());
+                if gc.centroid() != Some(l.centroid()) {
+                    fail(format!("collection order {:?}: centroid is not the line's", order));
+                }
+            }
+            let two = GeometryCollection(vec![Geometry::Point(p), Geometry::Point(Point::new(1.0, 1.0))]);
+            if two.centroid() != Some(Point::new(-3.0, 5.0)) {
+                fail("two points: centroid is not their mean".to_string());
+            }
+            println!("ok centroid dominance");
+        }
+        "polygon_reclose" => {
+            use geo_types::{LineString, Polygon};
+            let open = |k: f64, n: usize| -> LineString<f64> { (0..n).map(|i| (k + i as f64, (i * i) as f64 - k)).collect::<Vec<_>>().into() };
+            let all_closed = |p: &Polygon<f64>| p.exterior().is_closed() && p.interiors().iter().all(|h| h.is_closed());
+            let mut p = Polygon::new(open(0.0, 6), vec![open(10.0, 5), open(20.0, 7), open(30.0, 4)]);
+            if !all_closed(&p) || p.interiors().len() != 3 {
+                fail("Polygon::new left a ring open".to_string());
+            }
+            p.exterior_mut(|e| e.0[0].x = -99.0);
+            if !all_closed(&p) {
+                fail("exterior_mut left the exterior open".to_string());
+            }
+            let r: Result<(), &str> = p.try_exterior_mut(|e| {
+                e.0[0].x = -98.0;
+                Err("bail")
+            });
+            if r != Err("bail") || !all_closed(&p) {
+                fail("try_exterior_mut: ring open after Err, or the closure's result was lost".to_string());
+            }
+            let r: Result<(), &str> = p.try_exterior_mut(|e| {
+                e.0[0].x = -97.0;
+                Ok(())
+            });
+            if r != Ok(()) || !all_closed(&p) {
+                fail("try_exterior_mut: ring open after Ok".to_string());
+            }
+            p.interiors_mut(|hs| {
+                for h in hs.iter_mut() {
+                    h.0[0].y += 1.0;
+                }
+            });
+            if !all_closed(&p) {
+                fail("interiors_mut left an interior open".to_string());
+            }
+            for k in 0..3 {
+                let r: Result<(), usize> = p.try_interiors_mut(|hs| {
+                    hs[k].0[0].y -= 2.0;
+                    Err(k)
+                });
+                if r != Err(k) || !all_closed(&p) {
+                    fail(format!("try_interiors_mut: interior {k} open after Err, or the closure's result was lost"));
+                }
+            }
+            p.interiors_push(open(40.0, 5));
+            if !all_closed(&p) || p.interiors().len() != 4 || p.interiors()[3].0[0] != (coord! {x: 40.0, y: -40.0}) {
+                fail("interiors_push: new ring open or not appended last".to_string());
+            }
+            println!("ok polygon reclose");
+        }
+        "geometry_delegation" => {
+            use geo::CoordsIter;
+            use geo_types::{polygon, Geometry, GeometryCollection, Line, LineString, MultiLineString, MultiPoint, MultiPolygon, Point, Rect, Triangle};
+            let poly = polygon!(exterior: [(x: 0.0, y: 0.0), (x: 9.0, y: 0.0), (x: 0.0, y: 9.0), (x: 0.0, y: 0.0)], interiors: [[(x: 1.0, y: 1.0), (x: 2.0, y: 1.0), (x: 1.0, y: 2.0), (x: 1.0, y: 1.0)]]);
+            let ls: LineString<f64> = vec![(0.0, 0.0), (1.0, 2.0), (3.0, 1.0)].into();
+            let gc = GeometryCollection(vec![Geometry::Polygon(poly.clone()), Geometry::Point(Point::new(5.0, 5.0))]);
+            let all: Vec<Geometry<f64>> = vec![
+                Geometry::Point(Point::new(1.0, 2.0)),
+                Geometry::Line(Line::new(coord! {x: 0.0, y: 0.0}, coord! {x: 1.0, y: 1.0})),
+                Geometry::LineString(ls.clone()),
+                Geometry::Polygon(poly.clone()),
+                Geometry::MultiPoint(MultiPoint(vec![Point::new(0.0, 1.0), Point::new(2.0, 3.0)])),
+                Geometry::MultiLineString(MultiLineString(vec![ls.clone(), ls.clone()])),
+                Geometry::MultiPolygon(MultiPolygon(vec![poly.clone(), poly.clone()])),
+                Geometry::GeometryCollection(gc.clone()),
+                Geometry::Rect(Rect::new(coord! {x: 0.0, y: 0.0}, coord! {x: 2.0, y: 3.0})),
+                Geometry::Triangle(Triangle(coord! {x: 0.0, y: 0.0}, coord! {x: 2.0, y: 0.0}, coord! {x: 0.0, y: 2.0})),
+            ];
+            macro_rules! same {
+                ($g:expr, $inner:expr) => {{
+                    let (a, b): (Vec<Coord<f64>>, Vec<Coord<f64>>) = ($g.coords_iter().collect(), $inner.coords_iter().collect());
+                    let (c, d): (Vec<Coord<f64>>, Vec<Coord<f64>>) = ($g.exterior_coords_iter().collect(), $inner.exterior_coords_iter().collect());
+                    a == b && c == d && $g.coords_count() == $inner.coords_count()
+                }};
+            }
+            for g in &all {
+                let ok = match g {
+                    Geometry::Point(x) => same!(g, x),
+                    Geometry::Line(x) => same!(g, x),
+                    Geometry::LineString(x) => same!(g, x),
+                    Geometry::Polygon(x) => same!(g, x),
+                    Geometry::MultiPoint(x) => same!(g, x),
+                    Geometry::MultiLineString(x) => same!(g, x),
+                    Geometry::MultiPolygon(x) => same!(g, x),
+                    Geometry::GeometryCollection(x) => same!(g, x),
+                    Geometry::Rect(x) => same!(g, x),
+                    Geometry::Triangle(x) => same!(g, x),
+                };
+                if !ok {
+                    fail(format!("Geometry enum traversal differs from the wrapped value's: {:?}", g));
+                }
+            }
+            println!("ok geometry delegation");
+        }
         _ => {
             eprintln!("unknown op {op}");
             std::process::exit(4);
